@@ -445,7 +445,15 @@ func main() {
 				}
 				if !innerPkg && r.Chance(50) {
 					p := b + "/m/package.json"
-					switch r.Intn(7) {
+					switch r.Intn(10) {
+					case 7: // only the member named exactly "main" counts: "Main" is some other member, the package has no main
+						files[p], pkgText[p] = fentry{kind: "pkg"}, `{"Main": "lib.js", "MAIN": "./lib.min", "name": "m"}`
+						out.Count("scenario", "package.json-with-Main-but-no-main")
+					case 8:
+						files[p], pkgText[p] = fentry{kind: "pkg", main: "index.js"}, `{"main": "index.js", "MAIN": "lib.js", "Main": "lib.min.js"}`
+						out.Count("scenario", "package.json-with-main-and-MAIN")
+					case 9:
+						files[p], pkgText[p] = fentry{kind: "pkg"}, `{"main": 5, "Main": "lib.js"}`
 					case 0:
 						files[p], pkgText[p] = fentry{kind: "pkg"}, `{"name": "m"}`
 					case 1:
